@@ -56,7 +56,7 @@ def run(ctx):
                 "the authored subtype, rectangle and decoded text entries, /AcroForm /Fields lists each authored field once "
                 "under its decoded name with the authored type, value and kind flags, every widget names its field as /Parent; a field "
                 "filled after assembly (Document::fill_field) carries the filled text as /V and each of its widgets an /AP /N form "
-                "XObject of the widget's size whose content (lexed by PdfLex) shows exactly that text.  "
+                "XObject (any bounding box of positive extent) whose content (lexed by PdfLex) shows exactly that text.  "
                 "Tagged documents (MCDoc.DocT): pages of 1-3 marked-content sequences and a structure tree of 3-5 elements of "
                 "varying shape owning them across pages; module Tagged is the reference reading of 14.7: the hierarchy under "
                 "/StructTreeRoot is the authored tree (types, /P back-links, kids in order, marked-content references, decoded "
